@@ -31,6 +31,11 @@ def main():
             res.append(r)
             pid = [k for k in r if k != "id"][0]
             print(r["id"], "exit", r[pid]["exit"], "viol", r[pid]["violations"], "with_input", r[pid]["with_input"], "undecided", r[pid]["undecided"], flush=True)
-    json.dump(res, open(f"{V}/seeded/matrix_{a.tier}.json", "w"), indent=1)
+    path = f"{V}/seeded/matrix_{a.tier}.json"
+    merged = {}
+    if os.path.exists(path):
+        merged = {r["id"]: r for r in json.load(open(path))}       # partial runs (--only) update their entries only
+    merged.update({r["id"]: r for r in res})
+    json.dump([merged[k] for k in sorted(merged)], open(path, "w"), indent=1)
 
 main()
